@@ -7,3 +7,12 @@ package reftable
 func vAssume(cond bool) {}
 
 func vAssert(cond bool, label string) {}
+
+// lemmaRootMin: in a heap-ordered queue no entry is less than the root. Proved by induction on i (the recursive call
+// is checked against the contract in verif_contracts.go, with a decreases clause).
+func lemmaRootMin(pq *mergedIterPQueue, i int) {
+	if i == 0 {
+		return
+	}
+	lemmaRootMin(pq, (i-1)/2)
+}
